@@ -15,6 +15,7 @@ import (
 	"errors"
 	"fmt"
 	"io"
+	"os"
 	"sort"
 	"strings"
 	"sync"
@@ -22,6 +23,7 @@ import (
 	"github.com/klauspost/compress/zstd"
 	"github.com/restic/chunker"
 	"github.com/restic/restic/internal/backend"
+	"github.com/restic/restic/internal/backend/cache"
 	"github.com/restic/restic/internal/backend/mem"
 	"github.com/restic/restic/internal/repository"
 	"github.com/restic/restic/internal/repository/crypto"
@@ -58,6 +60,7 @@ type c02Faulty struct {
 	overrun int
 	other   [][]byte
 	blobCT  map[int][]c02CT // authentic blob ciphertexts by length (for misdirected reads)
+	only    *backend.Handle // when set, the script applies to reads of this file only
 }
 
 func (f *c02Faulty) Unwrap() backend.Backend { return f.Backend }
@@ -87,6 +90,10 @@ func (c02ErrReader) Read([]byte) (int, error) { return 0, errC02Injected }
 func (f *c02Faulty) Load(ctx context.Context, h backend.Handle, length int, offset int64, fn func(rd io.Reader) error) error {
 	f.mu.Lock()
 	if !f.armed {
+		f.mu.Unlock()
+		return f.Backend.Load(ctx, h, length, offset, fn)
+	}
+	if f.only != nil && (f.only.Type != h.Type || f.only.Name != h.Name) {
 		f.mu.Unlock()
 		return f.Backend.Load(ctx, h, length, offset, fn)
 	}
@@ -201,6 +208,54 @@ func (f *c02Faulty) Load(ctx context.Context, h backend.Handle, length int, offs
 	return nil
 }
 
+// c02Observer sits ABOVE the cache layer and records what LoadRaw receives for each read.
+type c02Observer struct {
+	backend.Backend
+	mu  sync.Mutex
+	on  bool
+	log []c02Read
+}
+
+func (o *c02Observer) Unwrap() backend.Backend { return o.Backend }
+
+func (o *c02Observer) Load(ctx context.Context, h backend.Handle, length int, offset int64, fn func(rd io.Reader) error) error {
+	o.mu.Lock()
+	on := o.on
+	o.mu.Unlock()
+	if !on {
+		return o.Backend.Load(ctx, h, length, offset, fn)
+	}
+	called := false
+	var data []byte
+	var rerr, fnErr error
+	err := o.Backend.Load(ctx, h, length, offset, func(rd io.Reader) error {
+		called = true
+		data, rerr = io.ReadAll(rd)
+		if rerr != nil {
+			fnErr = fn(io.MultiReader(bytes.NewReader(data), c02ErrReader{}))
+			if fnErr == nil {
+				fnErr = rerr
+			}
+			return fnErr
+		}
+		fnErr = fn(bytes.NewReader(data))
+		return fnErr
+	})
+	rec := c02Read{h: h, length: length, offset: offset, kind: "seen", beKind: "data", data: data}
+	switch {
+	case !called:
+		rec.beKind, rec.data = "fail", nil
+	case rerr != nil:
+		rec.beKind = "readerr"
+	default:
+		rec.errAftr = err != nil && fnErr == nil
+	}
+	o.mu.Lock()
+	o.log = append(o.log, rec)
+	o.mu.Unlock()
+	return err
+}
+
 func c02Sha(b []byte) string {
 	s := sha256.Sum256(b)
 	return Hex(s[:])
@@ -228,6 +283,7 @@ type c02Repo struct {
 	state   BeState
 	names   []string // sorted keys of state
 	blobs   []c02Blob
+	zero    []c02Blob // all-zero blobs of several lengths (first one: the MinSize chunk)
 	zdec    *zstd.Decoder
 }
 
@@ -242,7 +298,7 @@ func (h *H) c02Compressible(n int) []byte {
 
 // c02NewRepo builds a small real repository behind the faulty wrapper: blobs (some stored in two
 // or three packs), snapshot / lock / index files, the key and the config.
-func (h *H) c02NewRepo(version uint) *c02Repo {
+func (h *H) c02NewRepo(version uint, withZero bool) *c02Repo {
 	inner := mem.New()
 	f := &c02Faulty{Backend: inner}
 	opts := repository.Options{}
@@ -251,6 +307,9 @@ func (h *H) c02NewRepo(version uint) *c02Repo {
 		opts.Compression = repository.CompressionOff
 	case 1:
 		opts.Compression = repository.CompressionMax
+	}
+	if withZero && opts.Compression == repository.CompressionOff {
+		opts.Compression = repository.CompressionAuto // the zero runs must compress to equal stored lengths
 	}
 	repo, _ := repository.TestRepositoryWithBackend(TB, f, version, opts)
 	r := &c02Repo{repo: repo, inner: inner, faulty: f, version: version}
@@ -278,6 +337,27 @@ func (h *H) c02NewRepo(version uint) *c02Repo {
 			t = restic.TreeBlob
 		}
 		r.blobs = append(r.blobs, c02Blob{tpe: t, data: d})
+	}
+	if withZero {
+		// the all-zero MinSize chunk (saved under the cached zero-chunk ID) and other runs of zeros:
+		// in a v2 repository they compress to the same stored length, so a misdirected read can
+		// deliver an AUTHENTIC all-zero plaintext of another length for the zero-chunk ID
+		for _, n := range []int{chunker.MinSize, chunker.MinSize - 1, chunker.MinSize / 2, chunker.MinSize + 1} {
+			r.zero = append(r.zero, c02Blob{tpe: restic.DataBlob, data: make([]byte, n)})
+		}
+		err := repo.WithBlobUploader(ctx, func(ctx context.Context, up restic.BlobSaverWithAsync) error {
+			for i := range r.zero {
+				id, _, _, err := up.SaveBlob(ctx, r.zero[i].tpe, r.zero[i].data, restic.ID{}, false)
+				if err != nil {
+					return err
+				}
+				r.zero[i].id = id
+			}
+			return nil
+		})
+		if err != nil {
+			panic(err)
+		}
 	}
 	// round 0 stores every blob; rounds 1, 2 store duplicates of some of them in new packs
 	for round := 0; round < 3; round++ {
@@ -328,7 +408,7 @@ func (h *H) c02NewRepo(version uint) *c02Repo {
 		f.other = append(f.other, r.state[n])
 	}
 	f.blobCT = map[int][]c02CT{}
-	for _, b := range r.blobs {
+	for _, b := range append(append([]c02Blob(nil), r.blobs...), r.zero...) {
 		for _, c := range repository.VerifC02Lookup(repo, restic.BlobHandle{ID: b.id, Type: b.tpe}) {
 			pb := r.state["data/"+c.PackID().String()]
 			f.blobCT[int(c.Blob.Length)] = append(f.blobCT[int(c.Blob.Length)], c02CT{b.id, pb[c.Blob.Offset : c.Blob.Offset+c.Blob.Length]})
@@ -521,6 +601,30 @@ func (h *H) c02LoadBlobCase(r *c02Repo, healthy bool) {
 		}
 		script = append(script, k)
 	}
+	h.c02LoadBlobWith(r, b, bh, script)
+}
+
+// zero-run blobs: every read of one of them is misdirected to an authentic blob of the same stored
+// length (another run of zeros), or answered correctly
+func (h *H) c02ZeroCases(r *c02Repo) {
+	for i, b := range r.zero {
+		bh := restic.BlobHandle{ID: b.id, Type: b.tpe}
+		n := 2*len(repository.VerifC02Lookup(r.repo, bh)) + 1
+		for _, kind := range []string{"swap", "ok"} {
+			if kind == "ok" && i > 1 {
+				continue
+			}
+			var script []c02Kind
+			for j := 0; j < n; j++ {
+				script = append(script, c02Kind{kind: kind, a: h.Intn(1 << 20), b: h.Intn(64), rnd: h.Bytes(4)})
+			}
+			h.c02LoadBlobWith(r, b, bh, script)
+		}
+	}
+}
+
+func (h *H) c02LoadBlobWith(r *c02Repo, b c02Blob, bh restic.BlobHandle, script []c02Kind) {
+	cands := repository.VerifC02Lookup(r.repo, bh)
 	h.Case("loadblob")
 	tn := "d"
 	if bh.Type == restic.TreeBlob {
@@ -561,6 +665,113 @@ func (h *H) c02LoadBlobCase(r *c02Repo, healthy bool) {
 		h.Rec("res", "err")
 	}
 	h.End()
+}
+
+// openCached opens a NEW Repository object on the same (faulty) backend with a local cache in dir,
+// and puts an observer above the cache layer.
+func (r *c02Repo) openCached(dir string) (*repository.Repository, *c02Observer) {
+	repo := OpenRepoOn(r.faulty, "geheim")
+	c, err := cache.New(repo.Config().ID, dir)
+	if err != nil {
+		panic(err)
+	}
+	repo.UseCache(c, func(string, ...any) {})
+	obs := &c02Observer{}
+	repository.VerifC02WrapBackend(repo, func(be backend.Backend) backend.Backend {
+		obs.Backend = be
+		return obs
+	})
+	return repo, obs
+}
+
+// cached LoadRaw: one snapshot / index file is damaged at the backend (persistently, or for the
+// first reads only); it is loaded twice by one repository instance and once more by a second
+// instance that shares the persistent cache directory. Every load is one `loadraw` case whose
+// replies are what LoadRaw received from the cache layer.
+func (h *H) c02CachedCases(r *c02Repo) {
+	var names []string
+	for _, n := range r.names {
+		if strings.HasPrefix(n, "snapshot/") || strings.HasPrefix(n, "index/") {
+			names = append(names, n)
+		}
+	}
+	if len(names) == 0 {
+		return
+	}
+	name := names[h.Intn(len(names))]
+	ts, idHex := splitKey(name)
+	t := c02FileTypes[ts]
+	id, _ := restic.ParseID(idHex)
+	dir := MkTemp("c02cache-")
+	defer os.RemoveAll(dir)
+	k := c02Kind{kind: h.Pick([]string{"other", "other", "flip", "trunc", "extend", "empty", "fail", "errafter", "ok"}),
+		a: h.Intn(1 << 20), b: h.Intn(64), rnd: h.Bytes(1 + h.Intn(24))}
+	nbad := 64 // persistent damage
+	plan := "persistent"
+	if h.Intn(3) == 0 {
+		nbad = 1 + h.Intn(2) // transient: the backend recovers
+		plan = "transient"
+	}
+	var script []c02Kind
+	for i := 0; i < 64; i++ {
+		if i < nbad {
+			script = append(script, k)
+		} else {
+			script = append(script, c02Kind{kind: "ok"})
+		}
+	}
+	hd := backend.Handle{Type: backend.FileType(t), Name: id.String()}
+	r.faulty.mu.Lock()
+	r.faulty.only = &hd
+	r.faulty.mu.Unlock()
+	r.faulty.arm(script)
+	defer func() {
+		r.faulty.disarm()
+		r.faulty.mu.Lock()
+		r.faulty.only = nil
+		r.faulty.mu.Unlock()
+	}()
+	ctx := context.Background()
+	repo, obs := r.openCached(dir)
+	for step := 0; step < 3; step++ {
+		if step == 2 { // a later run: new Repository object, same cache directory
+			repo, obs = r.openCached(dir)
+		}
+		obs.mu.Lock()
+		obs.on, obs.log = true, nil
+		obs.mu.Unlock()
+		var buf []byte
+		var err error
+		panicked, pmsg := Protect(func() { buf, err = repo.LoadRaw(ctx, t, id) })
+		obs.mu.Lock()
+		obs.on = false
+		log := obs.log
+		obs.mu.Unlock()
+		h.Case("loadraw")
+		h.Rec("req", c02ModelType[ts], Hex(id[:]))
+		h.Rec("cfg", Itoa(int(r.version)))
+		h.Rec("cache", plan, k.kind, Itoa(step))
+		seen := map[string]bool{}
+		for _, l := range log {
+			if l.beKind == "data" {
+				r.oracles(h, seen, l.data, false, 0, false)
+			}
+		}
+		r.emitReplies(h, log, nil, len(log))
+		switch {
+		case panicked:
+			h.Rec("res", "panic", HexS(pmsg))
+		case err == nil:
+			r.oracles(h, seen, buf, false, 0, false)
+			h.Rec("res", "ok", Hex(buf), c02Sha(buf))
+		case errors.Is(err, restic.ErrInvalidData):
+			r.oracles(h, seen, buf, false, 0, false)
+			h.Rec("res", "invalid", Hex(buf))
+		default:
+			h.Rec("res", "err")
+		}
+		h.End()
+	}
 }
 
 // saveblob: the ID returned by SaveBlob against sha256 of the buffer, including the all-zero
@@ -656,7 +867,7 @@ func (h *H) c02StoredCase(r *c02Repo) {
 func streamC02(h *H) {
 	nrepos := h.N(4, 160)
 	for i := 0; i < nrepos; i++ {
-		r := h.c02NewRepo(uint(2 - i%2))
+		r := h.c02NewRepo(uint(2-i%2), i == 0)
 		h.c02StoredCase(r)
 		for j := 0; j < 45; j++ {
 			h.c02LoadRawCase(r, false)
@@ -669,6 +880,10 @@ func streamC02(h *H) {
 		}
 		for j := 0; j < 50; j++ {
 			h.c02LoadBlobCase(r, false)
+		}
+		h.c02ZeroCases(r)
+		for j := 0; j < 8; j++ {
+			h.c02CachedCases(r)
 		}
 		if i%4 == 0 {
 			h.c02SaveBlobCases(r)
